@@ -233,6 +233,38 @@ def _big_samples(n, width):
     return [((i * 37) % 251) - 125 for i in range(n)] if width == 1 else [((i * 7919) % 65521) - 32760 for i in range(n)]
 
 
+def _check_stereo(case):
+    """a two-channel recording handed to readFramesAtTimes as an open wave reader: a frame is one sample PER CHANNEL; the kept stretches come back
+    frame for frame (boundaries on frame positions)"""
+    import struct
+    width, rate, ivs, kind = case
+    n = 12
+    left, right = list(range(1, n + 1)), [50 + i for i in range(n)]
+    inter = [v for pair in zip(left, right) for v in pair]
+    data = W.pack(inter, width)
+    fmt = struct.pack("<HHIIHH", 1, 2, rate, rate * width * 2, width * 2, 8 * width)
+    body = b"WAVE" + b"fmt " + struct.pack("<I", len(fmt)) + fmt + b"data" + struct.pack("<I", len(data)) + data
+    fn = os.path.join(scratch_dir(), "c17-stereo.wav")
+    with open(fn, "wb") as fd:
+        fd.write(b"RIFF" + struct.pack("<I", len(body)) + body)
+    L = [(a / rate, b / rate) for a, b in ivs]
+    af = wave.open(fn, "r")
+    try:
+        st, fr, _ = call(audio.readFramesAtTimes, af, L if kind == "keep" else None, L if kind == "delete" else None, None)
+    finally:
+        af.close()
+    inside = [any(a <= i < b for a, b in ivs) for i in range(n)]
+    keep = inside if kind == "keep" else [not x for x in inside]
+    if not ivs:
+        keep = [True] * n
+    want = W.pack([v for i in range(n) if keep[i] for v in (left[i], right[i])], width)
+    if st == "exc" or bytes(fr) != want:
+        return 1, "!", None, [Viol("read-stereo", f"readFramesAtTimes on a 2-channel recording (width {width}, rate {rate}, 12 frames) {kind}={ivs}: "
+                                                  f"{fr if st == 'exc' else W.unpack(bytes(fr), width) if len(fr) % width == 0 else len(fr)!r}; expected the interleaved frames "
+                                                  f"{W.unpack(want, width)}")]
+    return 1, "ok", (width, kind, len(ivs)), []
+
+
 def _big_wavfile(width, rate, n):
     fn = os.path.join(scratch_dir(), f"c17-big-{width}-{rate}-{n}.wav")
     if not os.path.exists(fn):
@@ -614,6 +646,10 @@ def parts(tier):
                        "samples, original length and positions with replacement; off-grid: contiguous runs whose ends are floor or ceil "
                        "of the exact positions; lists of 2-3 intervals also in descending / rotated listing order (same result as in time order)" % (len(combos), GRIDPOS),
                   bounds={"recording_samples": N, "max_intervals": 3}),
+        InputPart("two-channel-recordings", lambda: ((w_, r_, ivs, k) for w_ in (1, 2, 4) for r_ in (8, 8000)
+                                                 for ivs in ((), ((0, 12),), ((2, 5),), ((0, 3), (3, 7)), ((1, 2), (6, 12))) for k in ("keep", "delete")), _check_stereo,
+                  rule="2-channel recordings of 12 frames (widths 1 / 2 / 4, 2 rates) read through an open wave reader x 5 interval lists on frame positions x "
+                       "keep / delete: exactly the interleaved frames of the kept stretches", bounds={}),
         InputPart("long-recordings", lambda: _large_cases(quick), _check_large,
                   rule="recordings of 70000 samples (thorough also 5000, 140000; widths 1/2/4) x 7 interval lists on sample positions whose kept or dropped "
                        "stretches are longer than 2**16 samples (whole file, all but the edges, halves, a long tail) x keep/delete x {none, silence}; "
